@@ -77,3 +77,28 @@ Theorem C14_lossy_is_maximal_subpart_repair :
   forall v, from_utf8_lossy actual_width v = utf8_lossy_spec v.
 Proof. intros v. apply from_utf8_lossy_is_spec. exact actual_table_ok. Qed.
 Print Assumptions C14_lossy_is_maximal_subpart_repair.
+
+(* ---- chars: encoding, push, insert (Utf8Enc.v) ---- *)
+From BV Require Import Utf8Enc.
+
+Theorem C14_encode_wellformed : forall cp, scalar cp = true -> wf_char (encode cp).
+Proof. exact encode_wf. Qed.
+
+Theorem C14_decode_encode : forall cp rest, scalar cp = true -> decode (encode cp ++ rest) = Some cp.
+Proof. exact decode_encode. Qed.
+
+Theorem C14_push : forall s cp, Valid s -> scalar cp = true -> Valid (s_push s cp).
+Proof. exact s_push_valid. Qed.
+
+Theorem C14_insert : forall s i cp s', Valid s -> scalar cp = true -> s_insert s i cp = SRet s' -> Valid s'.
+Proof. exact s_insert_valid. Qed.
+
+Theorem C14_insert_panics_off_boundary : forall s i cp,
+  is_char_boundary s i && (i <=? N.of_nat (length s)) = false -> s_insert s i cp = SPanic.
+Proof. exact s_insert_panics. Qed.
+
+Print Assumptions C14_encode_wellformed.
+Print Assumptions C14_decode_encode.
+Print Assumptions C14_push.
+Print Assumptions C14_insert.
+Print Assumptions C14_insert_panics_off_boundary.
